@@ -40,6 +40,8 @@ type Hello struct {
 	Exts         []Ext
 	NoExtBlock   bool   // omit the extensions block entirely (legal below TLS 1.3)
 	Trailer      []byte // bytes after the extensions block inside the message (normally none)
+	// ExtsTrailer: bytes INSIDE the extensions block after the last extension (too short to be an extension; hostile inputs)
+	ExtsTrailer []byte
 }
 
 func u16(v int) []byte { return []byte{byte(v >> 8), byte(v)} }
@@ -73,6 +75,7 @@ func (h *Hello) Clone() *Hello {
 		c.Exts[i] = Ext{e.Type, append([]byte{}, e.Data...)}
 	}
 	c.Trailer = append([]byte{}, h.Trailer...)
+	c.ExtsTrailer = append([]byte{}, h.ExtsTrailer...)
 	return &c
 }
 
@@ -94,7 +97,7 @@ func (h *Hello) Body() []byte {
 	out = append(out, vec16(h.CipherSuites)...)
 	out = append(out, vec8(h.Compression)...)
 	if !h.NoExtBlock {
-		out = append(out, vec16(ExtsBytes(h.Exts))...)
+		out = append(out, vec16(append(ExtsBytes(h.Exts), h.ExtsTrailer...))...)
 	}
 	out = append(out, h.Trailer...)
 	return out
@@ -337,6 +340,12 @@ func ParseConfigList(b []byte) ([]ConfigInfo, error) {
 
 // BuildConfig builds an ECHConfig from the draft's structure definition.
 func BuildConfig(id byte, pub []byte, suites []Suite, name string) []byte {
+	return BuildConfigOpt(id, pub, suites, name, min(len(name)+16, 255), nil)
+}
+
+// BuildConfigOpt is BuildConfig with a free maximum_name_length and a raw extensions block (another implementation's
+// config need not be byte-identical to what this library's encoder would write for the same fields).
+func BuildConfigOpt(id byte, pub []byte, suites []Suite, name string, maxNameLen int, extensions []byte) []byte {
 	var c []byte
 	c = append(c, id)
 	c = append(c, u16(hpkeref.KEMX25519)...)
@@ -347,9 +356,9 @@ func BuildConfig(id byte, pub []byte, suites []Suite, name string) []byte {
 		cs = append(cs, u16(int(s.AEAD))...)
 	}
 	c = append(c, vec16(cs)...)
-	c = append(c, byte(min(len(name)+16, 255)))
+	c = append(c, byte(maxNameLen))
 	c = append(c, vec8([]byte(name))...)
-	c = append(c, 0, 0)
+	c = append(c, vec16(extensions)...)
 	return append(u16(0xfe0d), vec16(c)...)
 }
 
